@@ -3,7 +3,9 @@
 // Exactly one managed thread runs at a time; control changes hands only at scheduling points:
 //   * after pthread_create (interposed: std::thread of the code under test ends up here),
 //   * in pthread_join (blocking), at thread exit,
-//   * at the GWB_VERIF_YIELD hooks inside World::properties.
+//   * at the GWB_VERIF_YIELD hooks inside World::properties,
+//   * in pthread_mutex_lock / unlock (interposed; a thread waiting for a held mutex is not enabled),
+//   * before every operation on a sched::atomic_hook<T> (the harness maps std::atomic of the code under test onto it).
 // An execution is determined by the sequence of choices taken at the scheduling points; the explorer
 // enumerates all executions with at most `bound` preemptions (iterative context bounding, CHESS).
 // Hand-off uses one futex word per thread. Outside a managed run the interposed functions pass through.
@@ -16,6 +18,7 @@
 #include <dlfcn.h>
 #include <functional>
 #include <linux/futex.h>
+#include <map>
 #include <pthread.h>
 #include <string>
 #include <sys/syscall.h>
@@ -50,6 +53,7 @@ namespace sched
     std::atomic<int> go{0};      // futex word: 1 = may run
     bool finished = false;
     int blocked_on = -1;         // id of the thread this one joins
+    const void *blocked_mutex = nullptr;   // the mutex this thread waits for
     pthread_t real{};
     void *(*fn)(void *) = nullptr;
     void *arg = nullptr;
@@ -63,6 +67,7 @@ namespace sched
     std::vector<int> prefix;
     Trace trace;
     size_t max_points = 100000;
+    std::map<const void *, int> mutex_owner;
   };
   inline State &S() { static State s; return s; }
   inline thread_local int my_id = -1;
@@ -85,6 +90,7 @@ namespace sched
     const T &t = *s.threads[static_cast<size_t>(id)];
     if (t.finished) return false;
     if (t.blocked_on >= 0 && !s.threads[static_cast<size_t>(t.blocked_on)]->finished) return false;
+    if (t.blocked_mutex && s.mutex_owner.count(t.blocked_mutex)) return false;
     return true;
   }
 
@@ -177,6 +183,66 @@ namespace sched
     return real_join()(thread, ret);   // the target has run its body; its tail finishes by itself
   }
 
+  // mutexes: ownership is modelled by the scheduler (exactly one managed thread runs at a time, the real lock is never contended)
+  inline int managed_mutex_lock(const void *m, bool try_only)
+  {
+    State &s = S();
+    schedule_point(103);          // acquiring a lock is a synchronisation operation: another thread may run first
+    for (;;)
+      {
+        auto it = s.mutex_owner.find(m);
+        if (it == s.mutex_owner.end()) break;
+        if (try_only) return 16;  // EBUSY
+        if (it->second == s.current) { fprintf(stderr, "sched: thread %d locks a mutex it already holds\n", s.current); fflush(stderr); _exit(94); }
+        T *me = s.threads[static_cast<size_t>(s.current)];
+        me->blocked_mutex = m;
+        schedule_point(104);      // not enabled until the owner has released the mutex
+        me->blocked_mutex = nullptr;
+      }
+    s.mutex_owner[m] = s.current;
+    return 0;
+  }
+  inline int managed_mutex_unlock(const void *m)
+  {
+    State &s = S();
+    s.mutex_owner.erase(m);
+    schedule_point(105);
+    return 0;
+  }
+
+  // std::atomic of the code under test, with a scheduling point in front of every operation
+  template <typename V>
+  struct atomic_hook
+  {
+    std::atomic<V> v;
+    atomic_hook() noexcept = default;
+    constexpr atomic_hook(V x) noexcept : v(x) {}
+    atomic_hook(const atomic_hook &) = delete;
+    atomic_hook &operator=(const atomic_hook &) = delete;
+    V load(std::memory_order o = std::memory_order_seq_cst) const noexcept { yield(200); return v.load(o); }
+    void store(V x, std::memory_order o = std::memory_order_seq_cst) noexcept { yield(201); v.store(x, o); }
+    operator V() const noexcept { return load(); }
+    V operator=(V x) noexcept { store(x); return x; }
+    V exchange(V x, std::memory_order o = std::memory_order_seq_cst) noexcept { yield(202); return v.exchange(x, o); }
+    // (no spurious failures under the scheduler)
+    bool compare_exchange_weak(V &e, V d, std::memory_order o = std::memory_order_seq_cst) noexcept { yield(203); return v.compare_exchange_strong(e, d, o); }
+    bool compare_exchange_weak(V &e, V d, std::memory_order o, std::memory_order f) noexcept { yield(203); return v.compare_exchange_strong(e, d, o, f); }
+    bool compare_exchange_strong(V &e, V d, std::memory_order o = std::memory_order_seq_cst) noexcept { yield(203); return v.compare_exchange_strong(e, d, o); }
+    bool compare_exchange_strong(V &e, V d, std::memory_order o, std::memory_order f) noexcept { yield(203); return v.compare_exchange_strong(e, d, o, f); }
+    V fetch_add(V x, std::memory_order o = std::memory_order_seq_cst) noexcept { yield(204); return v.fetch_add(x, o); }
+    V fetch_sub(V x, std::memory_order o = std::memory_order_seq_cst) noexcept { yield(204); return v.fetch_sub(x, o); }
+    V fetch_and(V x, std::memory_order o = std::memory_order_seq_cst) noexcept { yield(204); return v.fetch_and(x, o); }
+    V fetch_or(V x, std::memory_order o = std::memory_order_seq_cst) noexcept { yield(204); return v.fetch_or(x, o); }
+    V fetch_xor(V x, std::memory_order o = std::memory_order_seq_cst) noexcept { yield(204); return v.fetch_xor(x, o); }
+    V operator++() noexcept { return fetch_add(1) + 1; }
+    V operator++(int) noexcept { return fetch_add(1); }
+    V operator--() noexcept { return fetch_sub(1) - 1; }
+    V operator--(int) noexcept { return fetch_sub(1); }
+    V operator+=(V x) noexcept { return fetch_add(x) + x; }
+    V operator-=(V x) noexcept { return fetch_sub(x) - x; }
+    bool is_lock_free() const noexcept { return true; }
+  };
+
   // Runs body() under the scheduler with the given choice prefix (choice 0 afterwards).
   inline Trace run(const std::function<void()> &body, const std::vector<int> &prefix)
   {
@@ -184,6 +250,7 @@ namespace sched
     for (auto *t : s.threads) delete t;
     s.threads.clear();
     s.trace = Trace();
+    s.mutex_owner.clear();
     s.prefix = prefix;
     T *main_t = new T();
     s.threads.push_back(main_t);
@@ -242,5 +309,28 @@ extern "C" int pthread_join(pthread_t thread, void **ret)
 {
   if (sched::S().active && sched::my_id >= 0) return sched::managed_join(thread, ret);
   return sched::real_join()(thread, ret);
+}
+namespace sched
+{
+  typedef int (*mutex_fn)(pthread_mutex_t *);
+  inline mutex_fn real_mutex(const char *name) { return reinterpret_cast<mutex_fn>(dlsym(RTLD_NEXT, name)); }
+}
+extern "C" int pthread_mutex_lock(pthread_mutex_t *m)
+{
+  if (sched::S().active && sched::my_id >= 0) return sched::managed_mutex_lock(m, false);
+  static sched::mutex_fn f = sched::real_mutex("pthread_mutex_lock");
+  return f(m);
+}
+extern "C" int pthread_mutex_trylock(pthread_mutex_t *m)
+{
+  if (sched::S().active && sched::my_id >= 0) return sched::managed_mutex_lock(m, true);
+  static sched::mutex_fn f = sched::real_mutex("pthread_mutex_trylock");
+  return f(m);
+}
+extern "C" int pthread_mutex_unlock(pthread_mutex_t *m)
+{
+  if (sched::S().active && sched::my_id >= 0) return sched::managed_mutex_unlock(m);
+  static sched::mutex_fn f = sched::real_mutex("pthread_mutex_unlock");
+  return f(m);
 }
 #endif
